@@ -4,7 +4,7 @@ META = {
     'level': 'exploration',
     'rule': ('Seeded parameter trees over the supported value grammar (depth <= 4) and the same trees with one '
              'unsupported value (set, bytes, object, complex, function, type, non-string dict key ...) planted at a '
-             'random depth, for task types {VA, VB, VAX, tasks_alt.VA, VJ, VP(post_init)}. Algebraic laws checked per '
+             'random depth, for task types {VA, VB, VAX, tasks_alt.VA, VJ, VP(post_init derives an attribute), VS(post_init rewrites a parameter), VU(underscore-prefixed parameter)}. Algebraic laws checked per '
              'tree against the harness\'s own normaliser/identity: fields normalised (no list/dict anywhere), equal '
              '+ equal hash for list<->tuple / dict<->frozendict re-spellings, unequal across types, frozen, pickle '
              'round trip under every protocol and a real spawn-process crossing (equal, same key, same dependencies '
@@ -87,7 +87,7 @@ def run_shard(rep):
     while j < cfg['n_base'] and not rep.expired():
         rng = random.Random(f'{rep.seed}:C15:{j}')
         j += rep.nshards
-        m, c = rng.choice(valgen.TASKS)
+        m, c = rng.choice(valgen.TASKS + [['vlab.tasks_core', 'VS'], ['vlab.tasks_core', 'VS']])
         p = valgen.gen_value(rng, rng.choice([1, 2, 3, 4]))
         q = valgen.gen_value(rng, 1) if rng.random() < 0.4 else {'s': None}
         wit = {'module': m, 'cls': c, 'p': p, 'q': q}
@@ -119,7 +119,10 @@ def run_shard(rep):
             rep.violation('supported-rejected', f'supported value rejected: {type(ex).__name__}: {ex}', wit)
             continue
         raw_p, raw_q = valgen.realize(p), valgen.realize(q)
-        if base.p != valgen.harness_norm(raw_p) or base.q != valgen.harness_norm(raw_q):
+        exp_q = valgen.harness_norm(raw_q)
+        if c == 'VS' and isinstance(exp_q, str):
+            exp_q = exp_q.strip().lower()
+        if base.p != valgen.harness_norm(raw_p) or getattr(base, 'q', getattr(base, '_q', None)) != exp_q:
             rep.violation('not-normalised', f'fields {base.p!r} differ from the harness normaliser', wit)
         if not valgen.no_mutable_inside(base):
             rep.violation('mutable-inside', f'list/dict left inside {base!r}', wit)
@@ -157,14 +160,14 @@ def run_shard(rep):
         try:
             s = ser.serialize_task(base)
             json.dumps(s)
-            find_tasks_in_param(base.p)
-            find_tasks_in_param(base.q)
+            for f in dataclasses.fields(base):
+                find_tasks_in_param(getattr(base, f.name))
         except BaseException as ex:   # noqa
             rep.violation('accepted-but-unserializable', f'{base!r}: {type(ex).__name__}: {ex}', wit)
         # give the original a context, a results map and a result_meta: none may travel
         base.set_context({'secret': 'ctx'})
         base._set_results_map({base: TaskResult(value=1, meta=ResultMeta(start=None, duration=None))})
-        derived = getattr(base, 'derived', None) if c == 'VP' else None
+        derived = getattr(base, 'derived', None) if c in ('VP', 'VS') else None
         for proto in range(0, pickle.HIGHEST_PROTOCOL + 1):
             try:
                 cp = pickle.loads(pickle.dumps(base, protocol=proto))
@@ -173,7 +176,7 @@ def run_shard(rep):
                 continue
             rep.count('pickle_roundtrips')
             check_copy(rep, base, cp, f'pickle protocol {proto}', wit, derived)
-        if len(spawn_queue) < 40 and (c == 'VP' or rng.random() < 0.05):
+        if len(spawn_queue) < 40 and (c in ('VP', 'VS') or rng.random() < 0.05):
             spawn_queue.append((wit, base))
         if len(rep.samples) < 2 and nontrivial:
             rep.sample({'type': f'{m}.{c}', 'p': p, 'q': q, 'normalised': repr(base)[:300]})
@@ -208,7 +211,7 @@ def run_shard(rep):
                 rep.violation('copy-deps-differ', 'spawn crossing: dependencies differ in the child', wit)
             if r['rmap'] != 'None' or r['ctx'] != 'None' or r['has_result']:
                 rep.violation('copy-carries-results', f'spawn crossing: rmap={r["rmap"]} ctx={r["ctx"]}', wit)
-            if type(t).__name__ == 'VP' and r['derived'] != repr(t.derived):
+            if type(t).__name__ in ('VP', 'VS') and r['derived'] != repr(t.derived):
                 rep.violation('copy-lost-post-init', f'spawn crossing: derived attribute in the child is {r["derived"]}', wit)
 
 
